@@ -337,6 +337,50 @@ def _homevol(kind, reply, sort):
         return rt.ok()
 
 
+LD_SPELL = [(['/v/home/docs'], '/'), (['docs'], '/v/home'), (['/v/home/docs/'], '/'), (['./docs'], '/v/home'), (['/v/data/docs'], '/'), (['../data/docs'], '/v/home')]
+
+
+def _linkdir(spell, reply, sort):
+    """the requested directory is a symbolic link to a directory (or the directory such a link points to): the entries
+    offered are those RECORDED at or beneath the path as requested - the command compares recorded locations, it does
+    not resolve the request"""
+    with rt.untraced():
+        argv, cwd = LD_SPELL[spell]
+        rt.begin(('requested-dir-is-a-link', argv[0], cwd, reply, sort))
+        nodes = [W.d('/h'), W.d('/v/data/docs'), W.d('/v/home'), W.l('/v/home/docs', '../data/docs', 900), W.f('/v/keep', 'KEEP', 0o644, 800)]
+        td = '/v/.Trash-1000'
+        nodes += K.trashed(td, 'report', 'home/docs/report', '2020-01-02T03:04:05', 'file', 2000)
+        nodes += K.trashed(td, 'other', 'data/docs/other', '2020-01-01T00:00:00', 'file', 2020)
+        via_link = not argv[0].lstrip('./').startswith(('v/data', 'data'))
+        mine, not_mine = ('report', 'other') if via_link else ('other', 'report')
+        loc = {'report': '/v/home/docs/report', 'other': '/v/data/docs/other'}
+        rp = ['0', ''][reply]
+        args = [['--sort', 'date'], ['--sort', 'path'], []][sort]
+        m, res = scen.run_model(W.W(mounts=K.MOUNTS, cwd=cwd, nodes=nodes), [{'snap': '/'}, C('restore', args + argv, scen.env(), stdin=[rp], cwd=cwd), {'snap': '/'}])
+        before, r, after = res
+        label = 'requested-dir-%s:%s' % ('is-a-link' if via_link else 'is-the-target-of-a-link', argv[0])
+        if r['exc']:
+            return rt.fail('C13:traceback:%s:%s' % (r['exc'].split(':')[0], label), r['exc'])
+        lst = K.restore_listing(r['out'])
+        if [p for (_, _, p) in lst] != [loc[mine]]:
+            return rt.fail('C13:wrong-entries-offered:' + label, 'offered %r, expected exactly %r (recorded beneath the requested path)' % (lst, loc[mine]))
+        if scen.sub(after, td + '/files/' + not_mine) is None or scen.sub(after, td + '/info/' + not_mine + '.trashinfo') is None:
+            return rt.fail('C13:unselected-entry-restored:' + label, '%s left the trash' % not_mine)
+        restored = scen.sub(after, '/v/data/docs/' + mine) is not None
+        if (rp == '0') != restored or (rp == '0') != (scen.sub(after, td + '/files/' + mine) is None):
+            return rt.fail('C13:selected-entry-not-restored:' + label if rp == '0' else 'C13:unselected-entry-restored:' + label,
+                           'reply %r; %s restored: %r; exit %r stderr %r' % (rp, mine, restored, r['exit'], r['err'][-200:]))
+        return rt.ok()
+
+
+def w_linkdir(spell: int, reply: int, sort: int) -> str:
+    """
+    pre: 0 <= spell < 6 and 0 <= reply < 2 and 0 <= sort < 3
+    post: _ == ''
+    """
+    return _linkdir(rt.sel(spell, 6), rt.sel(reply, 2), rt.sel(sort, 3))
+
+
 def w_homevol(kind: int, reply: int, sort: int) -> str:
     """
     pre: 0 <= kind < 6 and 0 <= reply < 3 and 0 <= sort < 3
@@ -375,6 +419,8 @@ def obligations(tier):
     gparts = _prefix_parts(1, 3) if tier == 'quick' else _prefix_parts(2, 4)
     sparts = [('short', 3, 2)] if tier == 'quick' else _prefix_parts(1, 3)
     return kpair.obligations(tier) + [
+        CH('W_requested_directory_is_a_symbolic_link', MOD, 'w_linkdir', timeout=300, engine='W', regime='selector', encodes=K.RESTORE_FUNCS, stubs=K.STUBS,
+           bounds='the requested directory is a symbolic link to a directory, or the directory it points to: 6 spellings (absolute, relative, trailing slash) x reply 0 / none x 3 sort modes'),
         CH('W_trash_dirs_of_the_home_volume', MOD, 'w_homevol', timeout=300, engine='W', regime='selector', encodes=K.RESTORE_FUNCS, stubs=K.STUBS,
            bounds='entries in the home trash, in /.Trash-$uid of the same volume and on another volume; 6 kinds x 3 replies x 3 sort modes'),
         CH('W_free_destinations_x_options_x_parents', MOD, 'w_free', timeout=600, engine='W', regime='selector', encodes=K.RESTORE_FUNCS, stubs=K.STUBS,
